@@ -363,7 +363,12 @@ def noclobberRow (k : Target) (noclobber : Bool) (clobberOp : Bool) : Bool :=
   let w := targetWorld k noclobber
   let res := openNormalFile worldOracle w stdTable (if clobberOp then .fileClobber else .fileOut) 3
   let refused := noclobber && !clobberOp && k == .regular
-  if refused then
+  if k == .directory then
+    -- a directory cannot be opened for writing (EISDIR, also through noclobber's second, plain open);
+    -- no descriptor is left
+    (match res.r with | .error (.openFile .EISDIR) => true | _ => false) &&
+      res.t.openFds == stdTable.openFds
+  else if refused then
     -- fails with EEXIST, the file keeps its content, no descriptor is left
     (match res.r with | .error (.openFile .EEXIST) => true | _ => false) &&
       (fileAt res.w 3).content == [1, 2] && res.t.openFds == stdTable.openFds
@@ -372,10 +377,23 @@ def noclobberRow (k : Target) (noclobber : Bool) (clobberOp : Bool) : Bool :=
     (match res.r with | .ok (.owned 3) => true | _ => false) &&
       (fileAt res.w 3).present && (fileAt res.w 3).content == []
 
-/-- ★ `>` under noclobber on an existing regular file fails without truncating it; `>|`, a missing
-    file and a non-regular file go through (all 3 × 2 × 2 rows) -/
+/-- ★ `>` under noclobber on an existing regular file fails without truncating it; `>|` and a missing
+    file go through; a directory is refused with EISDIR either way (all 3 × 2 × 2 rows).  The branch
+    of `open_file_noclobber` that lets a non-regular file through is covered for every oracle by
+    `undo_restores`; the virtual system has no other non-regular file an `open` returns from. -/
 theorem noclobber_table : ∀ (k : Target) (noclobber clobberOp : Bool), noclobberRow k noclobber clobberOp = true := by
   intro k nc c
   cases k <;> cases nc <;> cases c <;> decide
+
+/-- a failing allocation has no effect on the file system: with no free descriptor below the limit
+    `>a` fails with EMFILE and `a` keeps its content, `>m` does not create `m` -/
+theorem emfile_has_no_side_effect :
+    let t : FdTable := { stdTable with limit := some 3 }
+    let ra := openNormalFile worldOracle (stdWorld false) t .fileOut 3
+    let rm := openNormalFile worldOracle (stdWorld false) t .fileOut 5
+    (match ra.r with | .error (.openFile .EMFILE) => true | _ => false) = true ∧
+    (fileAt ra.w 3).content = [1, 2] ∧
+    (match rm.r with | .error (.openFile .EMFILE) => true | _ => false) = true ∧
+    (fileAt rm.w 5).present = false := by decide
 
 end YashModel.Redir
